@@ -13,8 +13,8 @@ choices and gathers nested to depth 3 with once-only / sticky / conditional (one
 labelled forms and start[choice-only]end text that may hold inline conditionals, sequences and printed values, \
 inline conditionals and sequences nested in one another, block conditionals, switch blocks, multi-line sequence \
 blocks, stopping / cycle / once-only sequences, forward diverts to knots, stitches and labelled gathers, VAR and temp \
-int / bool / string arithmetic, read counts of knots, stitches and labels, TURNS_SINCE, TURNS, CHOICE_COUNT, tunnels, \
-functions with return values, text and ref parameters, threads, glue, tags, inline diverts, -> DONE), printed in \
+int / bool / string arithmetic, read counts of knots, stitches and labels, TURNS_SINCE, TURNS, CHOICE_COUNT, tunnels (also left with ->-> target), \
+functions with return values, text and ref parameters, threads (also with arguments), glue, tags, inline diverts, -> DONE), printed in \
 canonical layout, compiled by the tree under test and played along every choice path (depth-first, bounded depth, \
 width and path count; every path replayed from a fresh story). Oracle: an independent source-level reference \
 interpreter over the same AST (harness/src/refint.rs): per turn the lines (text, tags), the offered choices (text, \
